@@ -81,6 +81,25 @@ fn gen_coll(ctx: &Ctx, rng: &mut Rng, idx: u64) -> Coll {
     };
     let mut pats = base.patterns.clone();
     let mut injected = Vec::new();
+    if !ctx.slow() && rng.below(60) == 0 {
+        // a long pattern (150..600 symbols of mixed widths) registered twice: the duplicate is
+        // reported through an error that carries the pattern's text
+        let syms = gen::case_symbols(&base);
+        if !syms.is_empty() {
+            let mut long: Vec<u8> = Vec::new();
+            for _ in 0..rng.range(150, 600) {
+                let sy: &Vec<u8> = rng.pick(&syms);
+                long.extend_from_slice(sy);
+                if base.utf8 && rng.chance(1, 3) {
+                    long.extend_from_slice(rng.pick(&["a", "é", "世", "😀"]).as_bytes());
+                }
+            }
+            let pos = rng.usize_below(pats.len() + 1);
+            pats.insert(pos, long.clone());
+            pats.push(long);
+            injected.push("a long pattern registered twice".to_string());
+        }
+    }
     let entry = if rng.chance(1, 2) { Entry::New } else { Entry::WithValues };
     let nfb = Some(1 + rng.below(64) as u32);
     let spec = Spec { variant, kind, nfb: if rng.chance(1, 4) { None } else { nfb }, entry };
